@@ -360,3 +360,12 @@ func boolConjFalseEdges(fn *ssa.Function, vals []ssa.Value) []cfgx.Edge {
 	}
 	return out
 }
+
+// entryEdges: the out-edges of fn's entry block (start of a whole-function search).
+func entryEdges(fn *ssa.Function) []cfgx.Edge {
+	var out []cfgx.Edge
+	for i := range fn.Blocks[0].Succs {
+		out = append(out, cfgx.Edge{From: fn.Blocks[0], Idx: i})
+	}
+	return out
+}
